@@ -242,19 +242,19 @@ Example c08_gap_batch_larger_than_cache :
    (lru (servers w 0), btab (servers w 0)) = ([2; 1], [(2, 12); (1, 11); (0, 10)])).
 Proof. vm_compute. repeat split; reflexivity. Qed.
 
-(* G1 (known F11g, unrepaired half): a Parse that failed stays in the client map; its out-of-band
-   retry fails again and the ErrorResponse drains the registration of a Parse still waiting in the
-   batch: the backend gets PGCAT_1, the cache forgets it, the next client gets 42P05 *)
-Example c08_gap_failed_parse_stays_in_client_map :
-  agree (Kid 4) [Parse 0 9 90; Sync 0 1; Parse 0 1 10; Bind 0 9; Execute 0; Sync 0 0; Parse 1 1 10; Bind 1 1; Execute 1; Sync 1 0] = (false, false) /\
-  (let w := fst (run (Kid 4) world0 [Parse 0 9 90; Sync 0 1; Parse 0 1 10; Bind 0 9; Execute 0; Sync 0 0]) in
-   (lru (servers w 0), btab (servers w 0)) = ([], [(1, 10)])).
+(* G1/G3 (known F11h): after an error PostgreSQL skips the rest of the batch; pgcat still applies
+   it to the client map and acknowledges it.  [Close s1] after a failing Execute forgets s1 *)
+Example c08_gap_rest_of_batch_not_skipped_after_error :
+  agree (Kid 4) [Parse 0 1 10; Sync 0 0; Parse 0 2 95; Bind 0 2; Execute 0; Close 0 1; Sync 0 0; Bind 0 1; Execute 0; Sync 0 0] = (false, false) /\
+  agree (Kid 4) [Parse 0 1 10; Sync 0 0; Parse 0 2 95; Bind 0 2; Execute 0; Parse 0 3 10; Sync 0 0; Bind 0 3; Execute 0; Sync 0 0] = (false, false).
 Proof. vm_compute. split; reflexivity. Qed.
 
-(* G1 (known F11f3): DEALLOCATE ALL executed in a batch that Parses another statement after it *)
-Example c08_gap_deallocate_all_then_parse_same_batch :
-  agree (Kid 4) [Parse 0 1 99; Bind 0 1; Execute 0; Parse 0 2 10; Sync 0 0; Parse 1 1 10; Bind 1 1; Execute 1; Sync 1 0] = (false, false).
-Proof. vm_compute. reflexivity. Qed.
+(* repaired by d9d0e8b / fc66d7a: an out-of-band error only answers for its own statement;
+   statements prepared after a DEALLOCATE ALL in the same batch stay cached *)
+Example c08_fixed_F11g_F11f3 :
+  agree (Kid 4) [Parse 0 9 90; Sync 0 1; Parse 0 1 10; Bind 0 9; Execute 0; Sync 0 0; Parse 1 1 10; Bind 1 1; Execute 1; Sync 1 0] = (false, true) /\
+  agree (Kid 4) [Parse 0 1 99; Bind 0 1; Execute 0; Parse 0 2 10; Sync 0 0; Parse 1 1 10; Bind 1 1; Execute 1; Sync 1 0] = (false, true).
+Proof. vm_compute. split; reflexivity. Qed.
 
 (* G3 and deliberate leniency: Bind of a name that does not exist answers E+Z and disconnects
    the client (a direct connection answers 26000 and carries on); Close of the unnamed statement
